@@ -113,7 +113,7 @@ def merge (lofi bofi : List (Str × Bool)) : List (Str × Bool) :=
   let l := lofi.foldl (fun acc e => if acc.any (·.1 = e.1) then acc.map (fun x => if x.1 = e.1 then e else x) else acc ++ [e]) []
   bofi.foldl (fun acc e => if acc.any (·.1 = e.1) then acc else acc ++ [e]) l
 
-def infosOf (m : MemFs) (fs : List ObjId) : List (Str × Bool) :=
+def infosOf (m : MemFs) (fs : List Nat) : List (Str × Bool) :=
   fs.map fun o => (baseName (m.obj o).name, (m.obj o).dir)
 
 /-- `UnionFile.Readdir(c)` (repaired: a non-positive count consumes the rest) -/
@@ -160,7 +160,7 @@ def fsExists (m : MemFs) (k : Key) : Bool := (m.lookup k).isSome
     MkdirAll the parent in the layer if missing, Create, io.Copy, size check, Close, Chtimes.
     `dirStr` is `filepath.Dir(name)` of the *given* name string. Fault-free version
     (the fault-injected one is in Model/CopyFault.lean). -/
-def copyFileFrom (base layer : MemFs) (name : Str) (bo : ObjId) (startPos : Nat) : MemFs × Option FsErr :=
+def copyFileFrom (base layer : MemFs) (name : Str) (bo : Nat) (startPos : Nat) : MemFs × Option FsErr :=
   let dk := keyOfStr (Path.dir name)
   let layer := if fsExists layer dk then layer else (layer.mkdirAll dk 0o777).1
   let k := keyOfStr name
@@ -177,7 +177,7 @@ def copyFileFrom (base layer : MemFs) (name : Str) (bo : ObjId) (startPos : Nat)
     let layer := layer.setObj lf { layer.obj lf with mtime := layer.now }
     ((layer.chtimes k src.mtime).1, none)
 
-def copyFile (base layer : MemFs) (name : Str) (bo : ObjId) : MemFs × Option FsErr :=
+def copyFile (base layer : MemFs) (name : Str) (bo : Nat) : MemFs × Option FsErr :=
   copyFileFrom base layer name bo 0
 
 /-- `copyToLayer(base, layer, name)` -/
